@@ -79,8 +79,8 @@ static const uint64 RECONNECT_DELAY = 3600ULL*1000000ULL;   // "the delay": one 
 
 class LSession; class LFactory;
 struct Conn {                       // one socket connection between the server and the harness (the harness holds the peer's end)
-   int cn; ConstSocketRef peer; bool havePeer, peerClosed, tcp, fake, awaitingIo; int srvFd; uint16 localPort;
-   Conn() : cn(0), havePeer(false), peerClosed(false), tcp(false), fake(false), awaitingIo(false), srvFd(-1), localPort(0) {}
+   int cn; ConstSocketRef peer; bool havePeer, peerClosed, tcp, fake, awaitingIo, expectPeer; int srvFd; uint16 localPort;
+   Conn() : cn(0), havePeer(false), peerClosed(false), tcp(false), fake(false), awaitingIo(false), expectPeer(false), srvFd(-1), localPort(0) {}
 };
 struct SessInfo {                   // what the monitor knows about one session object (kept after the object is gone)
    LSession * p; bool alive; int att, attOk, det, detReturned, after, gone, goneWhileAttached; std::vector<std::string> afterWhat;
@@ -272,7 +272,8 @@ DataIORef LSession :: CreateDataIO(const ConstSocketRef & s)
          const IPAddressAndPort local = GetSocketBindAddress(s);
          struct sockaddr_storage sa; socklen_t sl = sizeof(sa); memset(&sa, 0, sizeof(sa));
          const bool isUnix = ((getsockname(fd, (struct sockaddr *) &sa, &sl) == 0)&&(sa.ss_family == AF_UNIX));
-         if (isUnix) c.fake = true; else {c.tcp = true; c.localPort = local.GetPort(); W->pendingTcp++;}
+         if (isUnix) c.fake = true;
+         else {c.tcp = true; c.localPort = local.GetPort(); if (GetAsyncConnectDestination().GetPort() == W->upPort) {c.expectPeer = true; W->pendingTcp++;}}   // only a connection to the listener ever arrives
       }
    }
    return AbstractReflectSession::CreateDataIO(s);
@@ -289,9 +290,7 @@ void World :: AcceptPending()
       if (a() == NULL)
       {
          // not there (yet): a connection to the refusing port never arrives; one to the listener arrives within microseconds
-         bool anyUp = false;
-         for (std::map<int, Conn>::iterator it = cs.begin(); it != cs.end(); ++it) if ((it->second.tcp)&&(!it->second.havePeer)&&(!it->second.fake)&&(it->second.localPort)) anyUp = true;
-         if ((!anyUp)||(Now()-t0 > 0.02)) break;
+         if (Now()-t0 > 2.0) {drift.push_back("harness: an outgoing connection did not arrive at the listener within 2 s"); pendingTcp = 0; break;}
          struct pollfd p; p.fd = upSock.GetFileDescriptor(); p.events = POLLIN; p.revents = 0; (void) poll(&p, 1, 5);
          continue;
       }
@@ -299,7 +298,7 @@ void World :: AcceptPending()
       struct sockaddr_storage sa; socklen_t sl = sizeof(sa); memset(&sa, 0, sizeof(sa)); uint16 port = 0;
       if (getpeername(a.GetFileDescriptor(), (struct sockaddr *) &sa, &sl) == 0) port = (sa.ss_family == AF_INET6) ? ntohs(((struct sockaddr_in6 *) &sa)->sin6_port) : ntohs(((struct sockaddr_in *) &sa)->sin_port);
       for (std::map<int, Conn>::reverse_iterator it = cs.rbegin(); it != cs.rend(); ++it)
-         if ((it->second.tcp)&&(!it->second.havePeer)&&(it->second.localPort == port)) {it->second.peer = a; it->second.havePeer = true; pendingTcp--; break;}
+         if ((it->second.expectPeer)&&(!it->second.havePeer)&&(it->second.localPort == port)) {it->second.peer = a; it->second.havePeer = true; pendingTcp--; break;}
    }
 }
 
@@ -477,10 +476,17 @@ static void Monitor(bool atEnd)
 
 static bool IsInner(const std::string & a) {return (a.size() > 1)&&((a[0] == 'i')||(a[0] == 'c'))&&(a[1] >= 'A')&&(a[1] <= 'Z');}
 
+static bool EvEq(const J & a, const J & b)
+{
+   static const char * f[] = {"s", "a", "f", "k", "n", "x"};
+   if (a["c"].str() != b["c"].str()) return false;
+   for (int i=0; i<6; i++) if (a[f[i]].i() != b[f[i]].i()) return false;
+   return true;
+}
 static std::string DiffEvents(const J & want, const J & got)
 {
    const size_t n = std::min(want.size(), got.size());
-   for (size_t i=0; i<n; i++) if (want[i] != got[i]) return "callback #"+Itoa((long) i+1)+": specification "+mj::ToString(want[i])+", code "+mj::ToString(got[i]);
+   for (size_t i=0; i<n; i++) if (!EvEq(want[i], got[i])) return "callback #"+Itoa((long) i+1)+": specification "+mj::ToString(want[i])+", code "+mj::ToString(got[i]);
    if (want.size() != got.size()) return "specification expects "+Itoa((long) want.size())+" callbacks, code made "+Itoa((long) got.size())+"; first extra/missing: "+mj::ToString((want.size() > got.size()) ? want[n] : got[n]);
    return "";
 }
@@ -613,7 +619,7 @@ static int Random(int argc, char ** argv)
                st = Step("Arm"); st.set("s", J::Int(1+rng.Below(N))).set("cb", J::Str(cbs[rng.Below(5)])).set("act", J::Str(acts[rng.Below(10)])).set("t", J::Int(rng.Below(N+1))); have = true;
             }
             else if (pick < 66) {st = Step("Clock"); have = true;}
-            else if (pick < 70) {if (live.empty()) continue; st = Step("Wp"); st.set("s", J::Int(live[rng.Below((int) live.size())])); have = true;}
+            else if (pick < 70) {if (att.empty()) continue; st = Step("Wp"); st.set("s", J::Int(att[rng.Below((int) att.size())])); have = true;}
             else if (pick < 74)
             {
                if (mode == "none") continue;
